@@ -2290,3 +2290,56 @@ M("C07", "break-edges-not-cut", SGL,
 M("C07", "pruned-nodes-keep-mirror-sets", SGL,
   "    remove_event_sets_mirroring_removed_edges(", "    set(", "R7.15",
   "pruned events stay in the predecessor sets of body events")
+
+# ============================================================ wave h (C01/C05: reshape lock-step)
+for _P, _R in (("C01", "R1.14"), ("C05", "R5.15")):
+    MM(_P, "path-indexes-ignore-finished", [
+        (WALK, "        self._path_indexes = list(range(not_indices_len))\n",
+         "        self._path_indexes = list(range(len(self.paths)))\n"),
+        (WALK, "        self._path_indexes += [not_indices_len + merged_paths_indices_len]\n", "")],
+       _R, "new node indexed as if no path had finished (seed C01-h)")
+    M(_P, "merged-indexes-from-zero", WALK,
+      "            range(not_indices_len, not_indices_len + merged_paths_indices_len)",
+      "            range(merged_paths_indices_len)", _R,
+      "finished index map restarts at 0")
+    M(_P, "pop-forgets-merge-node", WALK,
+      "            self.merge_nodes.pop()\n", "", _R,
+      "merge_nodes keeps the entry of the finished path")
+    M(_P, "pop-loses-finished-index", WALK,
+      "            self._merged_path_indexes.append(self._path_indexes.pop())",
+      "            self._path_indexes.pop()", _R,
+      "the finished path's position is forgotten")
+    M(_P, "merge-puml-nodes-from-indices", WALK,
+      "        self.puml_nodes = [self.puml_nodes[index] for index in not_indices] + [",
+      "        self.puml_nodes = [self.puml_nodes[index] for index in indices] + [",
+      _R, "puml_nodes rebuilt from the merged instead of the kept paths")
+    M(_P, "layout-new-node-first", WALK,
+      '''                [self._path_indexes[index] for index in not_indices]
+                + self._merged_path_indexes
+            )
+            + [new_node]
+        )''',
+      '''                self._merged_path_indexes
+                + [self._path_indexes[index] for index in not_indices]
+            )
+            + [new_node]
+        )''', _R, "outgoing logic laid out finished-first while the index "
+      "maps assume kept-first")
+    T(_P, "twin-index-maps-one-expression", WALK,
+      '''        self._path_indexes = list(range(not_indices_len))
+        self._merged_path_indexes = list(
+            range(not_indices_len, not_indices_len + merged_paths_indices_len)
+        )
+        self._path_indexes += [not_indices_len + merged_paths_indices_len]''',
+      '''        self._path_indexes = list(range(not_indices_len)) + [
+            not_indices_len + merged_paths_indices_len
+        ]
+        self._merged_path_indexes = list(
+            range(not_indices_len, not_indices_len + merged_paths_indices_len)
+        )''', "same index maps, one expression")
+
+# ============================================================ wave h (C12: per-trace uniqueness only)
+M("C12", "span-id-unique-per-trace-only", DM,
+  "    event_id: Mapped[str] = mapped_column(String, unique=True, nullable=False)",
+  "    event_id: Mapped[str] = mapped_column(String, index=True, nullable=False)", "R12.5",
+  "children joined by a bare id that is no longer a key (seed C12-h)")
